@@ -87,7 +87,7 @@ def get_block_positions(text, firstblock=None):
     # Line count. Starts form 1, to be consistent with vim's G
     line = 1
     # Check if message block exists
-    if text[:20].split()[0].lower() == 'message:':
+    if text[:20].split()[:1] and text[:20].split()[0].lower() == 'message:':
         dres['m'] = bi[0], line
         line += utils.nol(text, *bi[0])
         bi.pop(0)
